@@ -226,9 +226,30 @@ def unary_cls(M, P):
     return "generic"
 
 
-def point_order(M, P, bound=1 << 20):
+def factorize(n):
+    fs, d = [], 2
+    while d * d <= n:
+        while n % d == 0:
+            fs.append(d)
+            n //= d
+        d += 1
+    if n > 1:
+        fs.append(n)
+    return fs
+
+
+def point_order(M, P, bound=1 << 20, N=None):
+    """order of P; with the group order N given: by stripping prime factors (N P = O is checked)"""
     if P is None:
         return 1
+    if N is not None and N > 1500:
+        if M.mul(N, P) is not None:
+            raise Harness("model: N P != O")
+        o = N
+        for q in factorize(N):
+            if M.mul(o // q, P) is None:
+                o //= q
+        return o
     R, n = P, 1
     while R is not None:
         R = M.add(R, P)
@@ -524,12 +545,21 @@ class Eng:
             return ("returned", r)
         return self.dec2(lib.rd(c, 2 * self.nb))
 
-    def op_nega(self, A2, adjacent=False):
+    def op_nega(self, A2, adjacent=False, spaced=True):
+        """NegA asserts wwIsSameOrDisjoint(a, b, 3n) on 2n-word points (current tree), so two exact-size heap
+        blocks that the allocator happens to place closer than 3n words abort.  The bulk keeps spacer blocks
+        between a and b; the demo job runs the neighbouring placements."""
         lib = self.lib
         if adjacent:
             # two consecutive affine points of one array: a = pts[0], b = pts[1]
             a = lib.mk(A2 + self.fillw * 2)
             b = a + 2 * self.nb
+        elif spaced:
+            a = lib.mk(A2)
+            lib.alloc(2 * self.nb), lib.alloc(2 * self.nb), lib.alloc(2 * self.nb)
+            b = lib.alloc(2 * self.nb)
+            if abs(b - a) < 3 * self.nb:
+                b = lib.alloc(2 * self.nb + 0)
         else:
             a, b = lib.mk(A2), lib.alloc(2 * self.nb)
         self.NegA(b, a, self.ec)
@@ -874,7 +904,15 @@ def run_addmul(ctx, eng, sc, cand, label, count):
                 for d2 in g2:
                     if d1 >= 0 and d2 >= 0:
                         grids.append([(P1, d1, 32), (P2, d2, 32)])
+    def risky_tail(terms):
+        # a later term's table is carved out of scratch memory that earlier terms used for temporaries; if that
+        # table contains O (order 2 / small odd order) its unwritten X, Y are those leftovers and the ASSERTs of
+        # the current tree fire.  Representatives run in the demo job.
+        return any(at_risk(point_ord[t[0]]) for t in terms[1:])
+
     for terms in grids:
+        if risky_tail(terms):
+            continue
         exp = expect(terms)
         cls = "k2-grid" + ("/sum=O" if exp is None else "")
         if not ctx.case(["addmul", label, [list(t) for t in terms]], "addmul:" + cls):
@@ -898,6 +936,8 @@ def run_addmul(ctx, eng, sc, cand, label, count):
             o = point_ord[P]
             comp = (o - d % o) % o + o * rng.randrange(3)
             terms = [(P, d, mb), (P, comp, max(32, 32 * ((comp.bit_length() + 31) // 32)))]
+        if risky_tail(terms):
+            terms = terms[:1]
         exp = expect(terms)
         cls = "k%d-mixed" % len(terms) + ("/sum=O" if exp is None else "")
         if not ctx.case(["addmul", label, [list(t) for t in terms]], "addmul:" + cls):
@@ -917,7 +957,7 @@ def run_demo(ctx, eng, sc, cand, label):
         if kind is None or kind in done:
             continue
         done.add(kind)
-        for d, mb in ((5, 32), (11, 128)):
+        for d, mb in ((11, 64),):
             if ctx.case(["demo-mul", label, P, o, d, mb], "demo:mul-pattern-stack/" + kind):
                 got = check_mul(ctx, eng, sc, P, o, d, mb, M.mul(d % o, P), "/pattern-stack", zero=False)
                 ctx.digest(repr(got))
@@ -929,6 +969,15 @@ def run_demo(ctx, eng, sc, cand, label):
         got = check_addmul(ctx, eng, sc, terms, exp, "pattern-stack", zero=False)
         ctx.digest(repr(got))
         lib.release()
+    for Pr, o in cand:
+        if at_risk(o):
+            terms = [(P, 3, 32), (Pr, 5, 32)]
+            if ctx.case(["demo-addmul-tail", label, [list(t) for t in terms]], "demo:addmul-small-order-point-in-later-term"):
+                exp = M.add(M.mul(3, P), M.mul(5 % o, Pr))
+                got = check_addmul(ctx, eng, sc, terms, exp, "small-order-point-in-later-term", zero=True)
+                ctx.digest(repr(got))
+                lib.release()
+            break
     rep = M.o_canon(1)
     if ctx.case(["demo-toa", label, rep], "demo:toa-of-O-produced-by-dbl"):
         a, b = lib.mk(eng.enc3(rep)), lib.alloc(3 * eng.nb)
@@ -1012,26 +1061,55 @@ def run_ison(ctx, eng, sc, pts, label, exhaustive, nrand):
                     {"x": x, "y": y, "expected": exp, "got": r})
         ctx.digest(r)
         lib.release()
-    # coordinates outside the field (raw words): the header has no \pre on them, the answer must be FALSE
+    # coordinates outside the field (raw words): the header has no \\pre on them, the answer must be FALSE.
+    # The list of cases is the same in every configuration; a value that does not exist for this word size
+    # (e.g. nothing lies between the field and the word boundary) becomes a no-op case with the same digest.
     aff = [P for P in pts if P is not None][:6]
     if M.kind == "p":
-        outs = [M.p, M.p + 1, top - 1]
-        outs += [v for v in (M.p + aff[0][0], M.p + aff[0][1], 2 * M.p) if v < top]
+        outs = [("p", M.p), ("p+1", M.p + 1), ("all-ones", top - 1), ("p+x", M.p + aff[0][0]), ("p+y", M.p + aff[0][1]),
+                ("2p", 2 * M.p)]
     else:
-        outs = [v for v in (1 << M.m, (1 << M.m) | 1, top - 1, (1 << M.m) ^ aff[0][0]) if M.m < fld.n * lib.B and v < top]
+        # values in [2^m, mod) are in the demo job (run_ison_gap): on the current tree they pass the library's
+        # range test (numeric comparison with mod) and then die in an ASSERT of the field multiplication
+        fp = M.fpoly
+        outs = [("mod", fp), ("mod+1", fp + 1), ("mod|x^(m-1)", fp | (1 << (M.m - 1))), ("all-ones", top - 1)]
     for P in aff:
-        for v in outs:
+        for name, v in outs:
             for pos in (0, 1):
-                if not ctx.case(["ison-range", label, P, v, pos], "ison:coordinate-out-of-field"):
+                if not ctx.case(["ison-range", label, P, name, pos], "ison:coordinate-out-of-field"):
                     continue
-                xb = raw(v) if pos == 0 else fld.enc(P[0])
-                yb = raw(v) if pos == 1 else fld.enc(P[1])
-                r = sc.ison_raw(xb, yb)
-                if r != 0:
-                    eng.bad(eng.pre + "IsOnA", "wrong-answer", "coordinate-out-of-field",
-                            {"P": P, "raw_value": v, "position": "xy"[pos], "expected": 0, "got": r})
+                r = 0
+                if v < top and not M.in_field(v):
+                    xb = raw(v) if pos == 0 else fld.enc(P[0])
+                    yb = raw(v) if pos == 1 else fld.enc(P[1])
+                    r = sc.ison_raw(xb, yb)
+                    if r != 0:
+                        eng.bad(eng.pre + "IsOnA", "wrong-answer", "coordinate-out-of-field",
+                                {"P": P, "raw_value": v, "which": name, "position": "xy"[pos], "expected": 0, "got": r})
                 ctx.digest(r)
                 lib.release()
+
+
+def run_ison_gap(ctx, eng, sc, P, label):
+    """binary fields with m not a multiple of the word size: coordinates of degree m whose value is numerically
+    below the modulus"""
+    M, lib, fld = eng.M, ctx.lib, eng.fld
+    if M.kind != "2":
+        return
+    for name, v, pos in (("x^m", 1 << M.m, 0), ("x^m+1", (1 << M.m) | 1, 1)):
+        if not ctx.case(["ison-range", label, P, name, pos], "ison:degree-m-coordinate-below-mod"):
+            continue
+        r = 0
+        if M.m < fld.n * lib.B:
+            raw = v.to_bytes(fld.nb, "little")
+            xb = raw if pos == 0 else fld.enc(P[0])
+            yb = raw if pos == 1 else fld.enc(P[1])
+            r = sc.ison_raw(xb, yb)
+            if r != 0:
+                eng.bad(eng.pre + "IsOnA", "wrong-answer", "degree-m-coordinate-below-mod",
+                        {"P": P, "raw_value": v, "position": "xy"[pos], "expected": 0, "got": r})
+        ctx.digest(r)
+        lib.release()
 
 
 def run_swu(ctx, eng, label, inputs):
@@ -1177,9 +1255,9 @@ def pick_points(M, pts, N, rng, want=5):
     seen, out = set(), []
     by = {}
     aff = [P for P in pts if P is not None]
-    sample = aff if len(aff) <= 400 else [aff[i] for i in sorted(rng.sample(range(len(aff)), 400))]
+    sample = aff if len(aff) <= 300 else [aff[i] for i in sorted(rng.sample(range(len(aff)), 120))]
     for P in sample:
-        o = point_order(M, P)
+        o = point_order(M, P, N=N)
         if N % o:
             raise Harness("model: point order does not divide the group order")
         by.setdefault(o, P)
@@ -1213,6 +1291,12 @@ def demo_common(ctx, eng, sc, cand, label):
         eng.cmp(eng.pre + "NegA", M.neg(P), got, "adjacent-array-elements", "none", {"P": P})
         ctx.digest(repr(got))
         ctx.lib.release()
+    if ctx.case(["nega-consecutive-allocations", label, P], "nega:consecutive-heap-blocks"):
+        got = eng.op_nega(eng.enc2(P), spaced=False)
+        eng.cmp(eng.pre + "NegA", M.neg(P), got, "consecutive-heap-blocks", "none", {"P": P})
+        ctx.digest(repr(got))
+        ctx.lib.release()
+    run_ison_gap(ctx, eng, sc, P, label)
     run_demo(ctx, eng, sc, cand, label)
     eng.flush_counts()
 
@@ -1731,10 +1815,13 @@ def std_scalars(rng, q, fbits):
     return ds
 
 
-def std_lens(d, fbits):
+def std_lens(d, fbits, nlens=4):
     r32 = lambda v: 32 * ((v + 31) // 32)
     need = max(32, r32(d.bit_length()))
-    return sorted({mb for mb in (need, r32(fbits), r32(fbits) + 32, r32(fbits) + 64) if mb >= need})
+    ls = sorted({mb for mb in (need, r32(fbits), r32(fbits) + 32, r32(fbits) + 64) if mb >= need})
+    if nlens < len(ls):
+        ls = [ls[0], ls[-2]] if nlens == 2 else ls[:nlens]
+    return ls
 
 
 def unit_std(ctx):
@@ -1767,7 +1854,7 @@ def unit_std(ctx):
         for P, o in sel:
             for d in ds:
                 exp = mm.mul(d, P)
-                for mb in std_lens(d, fbits):
+                for mb in std_lens(d, fbits, pr.get("nlens", 4)):
                     if not ctx.case(["mul", label, P, d, mb], "mul:std/" + scalar_cls(d, o)):
                         continue
                     got = check_mul(ctx, eng, sc, P, o, d, mb, exp, "/std")
@@ -1783,7 +1870,8 @@ def unit_std(ctx):
                   [(K, r2, fb), (G, r1, fb), (K, q - r2, fb), (nG, r1, fb)], [(G, 2, 32), (G, 3, 32)],
                   [(G, (1 << 64) - 1, 64), (K, 1 << 63, 64)], [(K, r3, fb + 32)], [(G, 2 * q, fb + 32), (G, 5, 32)]]
         if T is not None:
-            combos += [[(T, 1, 32), (T, 1, 32)], [(G, r1, fb), (T, 1, 32)], [(pts[-1][0], q, fb), (T, 3, 32)],
+            # T (order two) only as first term: see risky_tail() in run_addmul
+            combos += [[(T, 2, 32)], [(T, 1, 32), (G, r1, fb)], [(T, 3, 32), (pts[-1][0], q, fb)],
                        [(pts[-1][0], 2 * q, fb + 32)], [(T, r2, fb), (G, r1, fb)]]
         for terms in combos:
             exp = None
@@ -1809,6 +1897,7 @@ def unit_std(ctx):
             r, _ = check_hasorder(ctx, eng, sc, P, o, qq, mb)
             ctx.digest(r)
             lib.release()
+    elif part == "pairs":
         # --- group law on the special pairs
         L = [None, G, nG, M.dbl(G), K] + ([T, pts[-1][0]] if T is not None else [])
         run_pairs(ctx, eng, L, list(range(len(L))), 1 << 30, label, "no")
@@ -1822,7 +1911,7 @@ def unit_std(ctx):
                 more.append(P)
         run_ison(ctx, eng, sc, L + more, label, False, 16)
         if M.kind == "p":
-            if pr["name"].endswith("45.3.3") and pr["fam"] == "bign":
+            if pr["name"].endswith("45.3.1") and pr["fam"] == "bign":
                 swu_anchor(lib, M)
             p = M.p
             run_swu(ctx, eng, label, [0, 1, 2, p - 1, p - 2, (p - 1) // 2] + [rng.randrange(p) for _ in range(pr.get("nswu", 10))])
@@ -1890,3 +1979,168 @@ def std_validators(ctx, M, G, q, cof, label):
                               {"curve": label, "order": order, "mov_threshold": mov, "expected": exp, "got": r})
             ctx.digest(r)
             lib.release()
+
+
+# ----------------------------------------------------------------------------------------------
+# catalogue and job lists
+# ----------------------------------------------------------------------------------------------
+
+# (p, a, b): complete small curves; a = p-3 selects ecpDblJA3/ecpTplJA3; group orders prime / even with one or
+# three points of order two / divisible by 3 / with cofactor; a = 0 (j = 0) and b = 0 (j = 1728) included
+SMALL_QUICK = [(5, 1, 0), (7, 4, 3), (13, 5, 7), (43, 40, 8), (71, 26, 35), (103, 100, 36)]
+# complete in the thorough tier, all special Q's + a sample in the quick tier
+SMALL_MID = [(131, 49, 49), (167, 164, 21), (211, 13, 36), (251, 0, 136)]
+SMALL_MORE = [
+    (5, 2, 4), (5, 0, 2), (7, 4, 1), (7, 1, 6), (7, 0, 3), (11, 8, 5), (11, 5, 4), (13, 10, 12), (13, 0, 1), (17, 14, 16),
+    (19, 16, 18), (23, 20, 18), (31, 28, 30), (43, 40, 8), (59, 56, 21), (59, 37, 26), (67, 64, 62), (71, 68, 29),
+    (79, 76, 23), (83, 36, 59), (97, 94, 43), (97, 53, 22), (103, 75, 55), (107, 104, 94), (127, 121, 101),
+    (127, 124, 36), (131, 128, 109), (139, 136, 19), (151, 148, 41), (163, 74, 26), (179, 176, 84), (191, 106, 19),
+    (199, 196, 107), (223, 220, 24), (227, 133, 96), (239, 236, 99), (251, 248, 95), (257, 254, 227), (263, 3, 199),
+]
+# sampled pairs: (p, a, b, rows, maxq)
+SMALL_SAMPLED = [(1019, 1016, 7, 160, 24), (4091, 4088, 5, 120, 24), (65519, 65516, 11, 80, 16), (65521, 2, 3, 80, 16)]
+
+# (bits, form, r, a)
+SS_QUICK = [(192, "rand", 7, "A3"), (256, "crandall", 0, "2"), (64, "rand", 5, "A3"), (128, "rand", 3, "5")]
+SS_MORE = [(192, "crandall", 0, "A3"), (96, "rand", 11, "A3"), (128, "crandall", 0, "A3"), (256, "rand", 13, "A3"),
+           (192, "rand", 3, "7"), (384, "rand", 5, "A3"), (521, "rand", 7, "3"), (64, "rand", 13, "2"), (160, "rand", 5, "A3")]
+
+# (poly, k, ia, ib)
+B2_QUICK = [([180, 3, 0, 0], 5, 7, 3), ([168, 15, 3, 2], 4, 1, 6), ([84, 5, 0, 0], 4, 5, 3)]
+B2_MORE = [([180, 3, 0, 0], 6, 0, 11), ([180, 3, 0, 0], 4, 9, 1), ([175, 6, 0, 0], 5, 3, 8), ([175, 6, 0, 0], 7, 21, 40),
+           ([168, 15, 3, 2], 6, 33, 2), ([165, 9, 8, 3], 5, 0, 0), ([165, 9, 8, 3], 3, 4, 2), ([186, 11, 0, 0], 6, 1, 17),
+           ([162, 8, 7, 4], 6, 12, 30), ([190, 8, 7, 6], 5, 19, 4), ([182, 81, 0, 0], 7, 1, 3), ([159, 31, 0, 0], 3, 2, 5),
+           ([97, 33, 0, 0], 1, 0, 0), ([97, 33, 0, 0], 1, 1, 0), ([128, 7, 2, 1], 4, 6, 9), ([96, 10, 9, 6], 6, 5, 5),
+           ([70, 5, 3, 1], 5, 2, 2), ([132, 17, 0, 0], 4, 3, 3)]
+
+BIGN = ["1.2.112.0.2.0.34.101.45.3.1", "1.2.112.0.2.0.34.101.45.3.2", "1.2.112.0.2.0.34.101.45.3.3"]
+G12S = ["1.2.643.2.2.35.1", "1.2.643.7.1.2.1.2.1", "1.2.643.2.2.35.0", "1.2.643.2.2.35.2", "1.2.643.2.2.35.3",
+        "1.2.643.2.9.1.8.1", "1.2.643.7.1.2.1.2.0", "1.2.643.7.1.2.1.2.2"]
+DSTU = ["1.2.804.2.1.1.1.1.3.1.1.1.2.%d" % i for i in (0, 5, 1, 2, 3, 4, 6, 7, 8, 9)]
+
+
+def _cut(lst, scale, least=1):
+    if scale >= 1:
+        return list(lst)
+    return list(lst[:max(least, int(len(lst) * scale + 0.5))])
+
+
+def jobs(tier, scale=1.0):
+    q = tier == "quick"
+    js = []
+
+    def J(unit, **params):
+        js.append({"unit": "c06:" + unit, "params": params})
+
+    per_job = 5000 if q else 20000          # pairs per job (about 2.5 ms each)
+
+    def pairs_jobs(p, a, b, maxq):
+        n = p + 1
+        cols = min(n, maxq + 8)
+        nch = max(1, min(16, -(-n * cols // per_job)))
+        for c in range(nch):
+            J("unit_sp_pairs", p=p, a=a, b=b, chunk=c, nchunks=nch, maxq=maxq)
+
+    # ---- small complete curves over GF(p)
+    full = _cut(SMALL_QUICK if q else SMALL_QUICK + SMALL_MID + SMALL_MORE, scale, 3)
+    for (p, a, b) in full:
+        pairs_jobs(p, a, b, 1 << 30 if scale >= 1 else max(8, int((p + 1) * scale)))
+    mid = _cut(SMALL_MID, scale) if q else []
+    for (p, a, b) in mid:
+        pairs_jobs(p, a, b, max(8, int(36 * min(1.0, scale))))
+    for (p, a, b) in full + mid:
+        for part in ("mul", "addmul", "misc"):
+            J("unit_sp_scalar", p=p, a=a, b=b, part=part)
+    for (p, a, b, rows, maxq) in _cut(SMALL_SAMPLED[:2] if q else SMALL_SAMPLED, scale):
+        nch = 1 if q else 4
+        for c in range(nch):
+            J("unit_sp_pairs", p=p, a=a, b=b, chunk=c, nchunks=max(nch, (p + 1) // rows), maxq=maxq,
+              maxrows=max(4, int(rows * min(1.0, scale))))
+        for part in ("mul", "addmul", "misc"):
+            J("unit_sp_scalar", p=p, a=a, b=b, part=part, nswu=100 if q else 400, nison=100 if q else 400)
+    for (p, a, b) in (full + mid)[1:3] + ([] if q else full[3:8]):
+        J("unit_sp_demo", p=p, a=a, b=b)
+    # ---- multi-word prime fields
+    for (bits, form, r, a) in _cut(SS_QUICK if q else SS_QUICK + SS_MORE, scale):
+        base = dict(bits=bits, form=form, r=r, a=a)
+        nch = 1 if q else 3
+        for c in range(nch):
+            J("unit_ss", part="pairs", chunk=c, nchunks=nch, maxq=(40 if q else 1 << 30) if scale >= 1 else 12, **base)
+        J("unit_ss", part="scalar", nlong=3 if q else 8, nrand=30 if q else 90, nbig=2 if q else 6, **base)
+        J("unit_ss", part="affine", maxq=10 if q else 40, **base)
+        J("unit_ss", part="demo", **base)
+    # ---- binary fields, subfield curves
+    for (poly, k, ia, ib) in _cut(B2_QUICK if q else B2_QUICK + B2_MORE, scale):
+        base = dict(poly=poly, k=k, ia=ia, ib=ib)
+        nch = 1 if (q or k < 6) else 4
+        for c in range(nch):
+            J("unit_b2", part="pairs", chunk=c, nchunks=nch, maxq=(40 if q else 1 << 30) if scale >= 1 else 12, **base)
+        J("unit_b2", part="scalar", nlong=2 if q else 6, nrand=24 if q else 80, nbig=2 if q else 5, **base)
+        J("unit_b2", part="affine", maxq=12 if q else 48, **base)
+        J("unit_b2", part="demo", **base)
+    # ---- standard curves
+    std = [("bign", n) for n in (BIGN[:1] + BIGN[2:] if q else BIGN)] + [("bign96", "1.2.112.0.2.0.34.101.45.3.0")]
+    std += [("g12s", n) for n in _cut(G12S[:2] if q else G12S, scale)]
+    std += [("dstu", n) for n in _cut(DSTU[:2] if q else DSTU, scale)]
+    for fam, name in std:
+        nch = 3 if q else 5
+        for c in range(nch):
+            J("unit_std", fam=fam, name=name, part="mul", chunk=c, nchunks=nch, nlens=2 if q else 4)
+        for part in ("other", "pairs", "affine", "valid", "demo"):
+            J("unit_std", fam=fam, name=name, part=part, nswu=10 if q else 60)
+    return js
+
+
+REQUIRED = (
+    "pair:O,O", "pair:O,P", "pair:P,O", "pair:P=Q", "pair:P=-Q", "pair:P=Q=-Q(order2)", "pair:order2-operand", "pair:generic",
+    "unary:O", "unary:order2", "unary:order3", "unary:order4", "unary:generic",
+    "alias:none", "alias:c=a", "alias:c=b", "alias:a=b", "alias:b=a",
+    "mul:d=0", "mul:d=1", "mul:d=order", "mul:d=order-1", "mul:d=order+1", "mul:d=2*order", "mul:d>order", "mul:d<order",
+    "mul:std/d=order", "mul:std/d=order+1", "mul:std/d>order", "mul:big-order/d=order",
+    "naf-w4", "naf-w5", "naf-w6", "addmul-k2", "addmul-k3", "addmul:k2-grid/sum=O", "addmul:std/k2/sum=O",
+    "hasorder:q=order", "hasorder:order-does-not-divide-q", "hasorder:std/q=order",
+    "ison:on-curve", "ison:off-curve", "ison:coordinate-out-of-field", "swu:s=0", "swu:s=1", "swu:s=p-1", "swu:generic",
+    "valid:valid", "valid:singular", "group:true-order", "group:hasse-inside", "group:hasse-outside", "safegroup:safe", "safegroup:mov",
+)
+
+
+def main(run):
+    q = run.tier == "quick"
+    js = [dict(j, cfg="asan64") for j in jobs(run.tier)]
+    # the 32-bit-word configuration: reduced in the quick tier, complete in the thorough tier
+    js32 = jobs(run.tier, 0.34 if q else 1.0)
+    if q:
+        keep = []
+        for j in js32:
+            p = j["params"]
+            if j["unit"] == "c06:unit_sp_pairs" and p.get("chunk", 0) > 0:
+                continue
+            if j["unit"] == "c06:unit_std" and p["part"] == "mul" and p["chunk"] > 0:
+                continue
+            keep.append(j)
+        js32 = keep
+    js += [dict(j, cfg="asan32") for j in js32]
+    # long jobs first
+    weight = {"c06:unit_std": 3, "c06:unit_b2": 2, "c06:unit_ss": 2, "c06:unit_sp_pairs": 1}
+    js.sort(key=lambda j: -weight.get(j["unit"], 0))
+    run.run_jobs(js, max_restarts=10)
+    return run.finish(
+        rule="cases = (curve, P, Q, random projective representatives) for the pair/unary batteries (each case executes "
+             "every function-table operation in every documented aliasing pattern), (curve, point, scalar, length) for "
+             "ecMulA/ecAddMulA/ecHasOrderA, (curve, x, y) for the on-curve tests, (curve, s) for SWU, (curve, group "
+             "description) for the validators; distinct = distinct descriptions; a case is non-trivial by construction "
+             "(complete point sets of small curves / small subgroups of multi-word curves, boundary scalars)",
+        assumptions=[
+            "O is any (X : Y : 0) with X, Y in the field (ec.h: Z == 0, ecSetO/ecIsO touch only Z)",
+            "a result with Z == 0 is read as O without toa; its X, Y are only checked for field membership",
+            "ecMulA/ecHasOrderA on points whose table of odd multiples contains O (order 2 or odd order <= 31) and all "
+            "ecAddMulA calls run on a zero-filled stack in the bulk (on the current tree ASSERT(ecpSeemsOn3/ec2SeemsOn3) "
+            "otherwise depends on the stack contents); representatives on the pattern-filled stack are in the demo jobs",
+            "ecpNegA/ec2NegA bulk cases keep spacer blocks between the two exact-size buffers; neighbouring placements are "
+            "in the demo jobs",
+            "ecHasOrderA: for composite q a point of order q1 | q may be accepted (header), no verdict there",
+            "SWU model = STB 34.101.66 6.2.3 as restated in ecp.c, anchored on the bakeSWU vector of bake_test.c; "
+            "for non-residue B the outputs for s in {0, 1, p-1} are only compared with the model",
+            "binary curves: coefficients in a subfield GF(2^k), group order by Weil recursion (model-verified on random points)",
+        ],
+        min_eval=5000, required_classes=REQUIRED)
